@@ -14,6 +14,7 @@ use kestrel_crypto::{AsymFileFormat, PassFileFormat, PayloadKey, PrivateKey, Pub
 mod zero;
 mod mem;
 mod c09mem;
+mod c09key;
 mod c01rt;
 
 fn unhex(s: &str) -> Vec<u8> {
@@ -479,6 +480,7 @@ fn run(a: &[&str]) -> String {
         op if op.starts_with("z_") => zero::run(a),
         op if op.starts_with("mem_") => mem::run(a),
         "c09mem" => c09mem::run(a),
+        "c09key" => c09key::run(a),
         "c01rt" => c01rt::run(a),
         _ => "outcome=badop".into(),
     }
